@@ -20,8 +20,8 @@ def gen_case(rng, big=False, no_repack=False):
     keep_delete = rng.choice([0, 0, 3600, 82800])
     opts = dict(cacheable_only=int(rng.random() < 0.15), unc=int(rng.random() < 0.15), all=int(rng.random() < 0.12),
                 no_resize=int(rng.random() < 0.3), instant=int(rng.random() < 0.4))
-    mu = rng.choice([(0, 0), (1, 0), (1, 0), (1, 5), (1, 50), (1, 99), (2, 0), (2, 100), (2, 5000)])
-    mr = rng.choice([(0, 0), (0, 0), (0, 0), (1, 0), (1, 10), (1, 50), (1, 100), (2, 0), (2, 1000), (2, 100000)])
+    mu = rng.choice([(0, 0), (1, 0), (1, 0), (1, 5), (1, 50), (1, 99), (1, 100), (1, 150), (1, 2 ** 61), (2, 0), (2, 100), (2, 5000)])
+    mr = rng.choice([(0, 0), (0, 0), (0, 0), (1, 0), (1, 10), (1, 50), (1, 100), (1, 300), (1, 2 ** 61), (2, 0), (2, 1000), (2, 100000)])
     if no_repack: mr = (2, 0)       # max_repack 0 bytes: every repack candidate is kept (plans the exec mode can run)
     sizers = []
     for _ in range(2):
@@ -111,7 +111,7 @@ def gen_case(rng, big=False, no_repack=False):
         for p in f["packs"]: t += pk(p)
         t += [len(f["dele"])]
         for p in f["dele"]: t += pk(p)
-    st = dict(now=now, keep_delete=keep_delete, keep_pack=keep_pack, instant=opts["instant"], files=files, packs={p["id"]: p for p in packs},
+    st = dict(now=now, keep_delete=keep_delete, keep_pack=keep_pack, instant=opts["instant"], opts=opts, mu=mu, mr=mr, files=files, packs={p["id"]: p for p in packs},
               used=used, used_typed=used_typed, existing=dict(existing), big=big)
     return " ".join(map(str, t)), st
 
@@ -174,6 +174,47 @@ def impl_cover_oracle(st, a):
     return lost
 
 
+U64 = 2 ** 64 - 1
+
+
+def option_oracle(st, a, md):
+    """The documented semantics of the repack options (theorems max_repack_respected, max_unused_respected,
+    no_resize_keeps_sizes, keep_pack_protects_young_packs, repack_all_repacks_everything_not_young) evaluated
+    on the IMPLEMENTATION's decisions; per-pack used/unused bytes and candidate reasons come from the model's
+    accounting (only evaluated when the accounting statistics of both sides agree)."""
+    bad = []
+    dec = {int(x.split(":")[1]): (x.split(":")[2], x.split(":")[3]) for x in a["d"]}
+    sz = {int(x.split(":")[0]): (int(x.split(":")[1]), int(x.split(":")[2])) for x in md.get("sz", [])}
+    info = {int(x.split(":")[0]): (int(x.split(":")[1]), int(x.split(":")[2]), x.split(":")[3]) for x in md.get("x", [])}
+    o = st["opts"]
+    stats = [int(v) for v in a["stats"]]
+    used_total, unused_total = stats[4] + stats[6], stats[5] + stats[7]
+    ru = o["unc"] or o["all"]
+    k, v = st["mr"]
+    L = None if k == 0 else (v if k == 2 else min(v * (used_total + unused_total), U64) // 100)
+    k, v = st["mu"]
+    MU = 0 if ru else (None if k == 0 else (v if k == 2 else (None if v >= 100 else min(v * used_total, U64) // (100 - v))))
+    repacked = sum(sz[p][0] for p, (m, t) in dec.items() if t == "Repack")
+    if L is not None and repacked > L:
+        bad.append("max_repack: %d used bytes are repacked, the limit is %d" % (repacked, L))
+    if L is None and MU is not None:
+        removed = sum(sz[p][1] for p, (m, t) in dec.items() if t == "MarkDelete")
+        after = unused_total - removed - sum(sz[p][1] for p, (m, t) in dec.items() if t == "Repack")
+        for p, (m, t) in dec.items():
+            if t == "Keep" and info[p][2] == "P" and st["packs"][p]["tpe"] == 1 and after >= MU and not (o["cacheable_only"]):
+                bad.append("max_unused: partly used data pack %d is kept although %d unused bytes stay (limit %d) and max_repack is unlimited" % (p, after, MU)); break
+    for p, (m, t) in dec.items():
+        pk = st["packs"][p]
+        young = pk["time"] is not None and pk["time"] > st["now"] - st["keep_pack"]
+        if m == "0" and young and t != "Keep":
+            bad.append("keep_pack: pack %d is younger than keep_pack but decided %s" % (p, t))
+        if o["no_resize"] and info[p][2] == "S" and t != "Keep":
+            bad.append("no_resize: pack %d is a candidate only because of its size but decided %s" % (p, t))
+        if o["all"] and L is None and m == "0" and info[p][0] >= 1 and not young and not (o["cacheable_only"] and pk["tpe"] == 1) and t != "Repack":
+            bad.append("repack_all: pack %d holds used blobs, is not too young, but is decided %s" % (p, t))
+    return bad
+
+
 def exec_oracle(st, a, x):
     """The statements of prune_keeps_used / only_unused_removed / fresh_marks_carry_run_time /
     kept_marks_keep_their_time evaluated on what the REAL executor wrote (exec mode of the harness)."""
@@ -208,12 +249,12 @@ def exec_oracle(st, a, x):
     return bad
 
 
-def run_lines(exe, lines, tag, timeout=3000, pin=False, mode=None):
+def run_lines(exe, lines, tag, timeout=3000, pin=False, mode=None, env=None):
     path = os.path.join(vlib.BUILD, "C02", "in_%s_%d.txt" % (tag, os.getpid()))
     open(path, "w").write("\n".join(lines) + "\n")
     # pin=True: one core, so that rustic's parallel archiver cuts packs identically on every run (determinism)
     pre = "taskset -c 0 " if pin and os.path.exists("/usr/bin/taskset") else ""
-    rc, out, err = vlib.sh2("ulimit -s unlimited 2>/dev/null; %s%s %s %s" % (pre, exe, path, mode or ""), timeout=timeout)
+    rc, out, err = vlib.sh2("ulimit -s unlimited 2>/dev/null; %s%s %s %s" % (pre, exe, path, mode or ""), timeout=timeout, env=env)
     os.remove(path)
     res = out.splitlines()
     if rc != 0 or len(res) != len(lines):
@@ -363,7 +404,7 @@ def run(ctx):
         if "case" in rp.get("witness", {}):
             lines = [rp["witness"]["case"]]; cases = [(lines[0], None)]
     impl_out = run_lines(impl, lines, "impl")
-    mism, hist, nontriv, weak, typed_viol, samples, cover_viol = [], {}, set(), 0, [], [], []
+    mism, hist, nontriv, weak, typed_viol, samples, cover_viol, option_viol = [], {}, set(), 0, [], [], [], []
     boundary = {"mark_time+keep_delete==now": 0, "pack_time+keep_pack==now": 0, "copies>=255": 0}
     if model:
         model_out = run_lines(model, lines, "model")
@@ -380,6 +421,9 @@ def run(ctx):
             if st and io.startswith("ok"):
                 lost_i = impl_cover_oracle(st, parse_out(io))
                 if lost_i: cover_viol.append((line, lost_i, io))
+                if mpart.startswith("ok") and diag and parse_out(io)["stats"][:11] == parse_out(mpart)["stats"][:11]:
+                    ob = option_oracle(st, parse_out(io), parse_out("ok " + diag))
+                    if ob: option_viol.append((line, ob, io))
             if io != mpart:
                 md = parse_out("ok " + diag) if diag else {}
                 ok_weak = False
@@ -432,7 +476,8 @@ def run(ctx):
                     and sorted(set(md.get("removed", []))) == sorted(x.get("xrm", [])) and md.get("kept_files") == x.get("xkept"))
             if not same: xmism.append({"case": line, "impl": xs, "model": diag})
     cov.update({"executor_cases_run_on_real_prune_repository": xrun, "executor_model_mismatches": len(xmism),
-                "executor_oracle_violations": len(xviol), "impl_plan_cover_oracle_violations": len(cover_viol)})
+                "executor_oracle_violations": len(xviol), "impl_plan_cover_oracle_violations": len(cover_viol),
+                "impl_option_semantics_violations": len(option_viol)})
     cov.update({"planner_cases": len(cases), "model_impl_mismatches": len(mism), "compared_weakly_because_of_equal_sort_keys": weak,
                 "boundaries_hit": boundary, "typed_oracle_losses_on_model": len(typed_viol)})
     # 5. end-to-end histories on the real library
@@ -444,7 +489,35 @@ def run(ctx):
     if ctx.replay:
         rp = json.load(open(ctx.replay))
         if "history" in rp.get("witness", {}): hl = [rp["witness"]["history"]]
-    e2e_out = run_lines(e2e, hl, "e2e", timeout=3400, pin=True)
+    trace_path = os.path.join(vlib.BUILD, "C02", "e2e_trace_%d.txt" % os.getpid())
+    if os.path.exists(trace_path): os.remove(trace_path)
+    e2e_out = run_lines(e2e, hl, "e2e", timeout=3400, pin=True, env={"C02_E2E_TRACE": trace_path})
+    # 5b. every prune of the histories was planned through the hook on the REAL repository (real index files, real
+    #     packs, the used set walked by the harness; the plan is executed only if it agrees with the plan of the real
+    #     find_used_blobs) and its outcome recorded: the model must predict decisions, the sections and mark times of
+    #     the new index, removed packs and which blobs the repackers wrote (modulo names of new packs)
+    tmism, tcmp, trepack = [], 0, 0
+    if model and os.path.exists(trace_path):
+        tl = [l.rstrip("\n") for l in open(trace_path) if " || " in l]
+        os.remove(trace_path)
+        tm = run_lines(model, [l.split(" || ")[0] for l in tl], "tmodel") if tl else []
+        for l, mo in zip(tl, tm):
+            case, obs = l.split(" || ")
+            x = parse_out("ok " + obs)
+            mpart, _, diag = mo.partition(" | ")
+            if not mpart.startswith("ok"):
+                tmism.append({"case": case, "real": obs, "model": mo[:300]}); continue
+            a, md = parse_out(mpart.strip()), parse_out("ok " + diag)
+            tcmp += 1
+            if any(d.endswith(":Repack") for d in x["d"]): trepack += 1
+            old = lambda l_: sorted(e for e in l_ if int(e.split(":")[0]) < 9000000)
+            same = (a["d"] == x["d"] and a["rw"] == x["rw"] and old(md.get("newpacks", [])) == sorted(x.get("xp", []))
+                    and sorted(md.get("newdel", [])) == sorted(x.get("xd", []))
+                    and sorted(set(md.get("removed", [])), key=int) == x.get("xrm", [])
+                    and sorted("%s:%s" % (c.split(":")[2], c.split(":")[1]) for c in md.get("copied", [])) == sorted(x.get("xnew", []))
+                    and md.get("kept_files") == x.get("xkept"))
+            if not same: tmism.append({"case": case, "real": obs, "model": mpart.strip()[:600] + " | " + diag[:900]})
+    cov.update({"e2e_prunes_compared_with_model_on_real_packs": tcmp, "of_which_with_repack": trepack, "e2e_prune_model_mismatches": len(tmism)})
     e2e_fail, e2e_steps, backup_side, e2e_obs = [], 0, 0, {}
     for h, o in zip(hl, e2e_out):
         f = dict(x.split("=", 1) for x in o.split()[1:] if "=" in x)
@@ -483,12 +556,17 @@ def run(ctx):
         w = f.get("what", o[:40])
         what = {"early_delete": "a pack that prune had only marked was deleted before keep-delete had passed",
                 "mark_time": "prune writes a mark time that is not the time of the marking run (keep-delete is not counted from the marking)",
-                "index_entry_lost": "a marked pack lost its index entry (it can never be brought back)"}.get(w)
+                "index_entry_lost": "a marked pack lost its index entry (it can never be brought back)",
+                "plan_differs": "the plan built from the real find_used_blobs differs from the planner run on the blobs reachable from the remaining snapshots (used-id set wrong)"}.get(w)
         ctx.violation(what or "after %s a remaining snapshot is no longer intact (%s)" % ("prune" if f.get("op") == "2" else "step kind " + f.get("op", "?"), w),
                       {"history": h, "result": o, "how_to_replay": "echo '<history>' | <target>/debug/c02_e2e -   (format: harness/src/bin/c02_e2e.rs)"}, signature=sig)
     for line, lost_i, io in cover_viol[:10]:
         ctx.violation("prune plan loses a referenced blob: it is neither in a pack that is kept/recovered nor handed to the repacker",
                       {"case": line, "lost_type_id": lost_i, "impl_plan": io[:1500],
+                       "how_to_replay": "echo '<case>' | <target>/debug/c02 -   (format: harness/src/bin/c02.rs)"})
+    for line, ob, io in option_viol[:10]:
+        ctx.violation("prune plan does not honour a repack option: " + re.sub(r"\d+", "N", ob[0]),
+                      {"case": line, "all": ob[:8], "impl_plan": io[:1500],
                        "how_to_replay": "echo '<case>' | <target>/debug/c02 -   (format: harness/src/bin/c02.rs)"})
     for line, bad, io in xviol[:10]:
         ctx.violation("prune execution breaks the two-phase delete: " + re.sub(r"\d+", "N", bad[0]),
@@ -498,6 +576,9 @@ def run(ctx):
         ctx.violation("model execution of prune loses a referenced (type,id) blob",
                       {"case": line, "lost": lost, "how_to_replay": "echo '<case>' | build/C02/model -   and   <target>/debug/c02 -"},
                       signature=SIG_COLLISION if coll else None)
+    if tmism and not ctx.violations:
+        ctx.violation("correspondence broken: the model does not predict what the real prune did on a real repository (%d of %d prunes of the e2e histories): decisions, new index sections / mark times, removed packs or repacked blobs differ; check and restore are clean" % (len(tmism), tcmp),
+                      {"correspondence": "props/C02 Model.prune_with vs hook plan + Repository::prune on the e2e repositories", "first": tmism[0]}, no_input=True)
     if xmism and not ctx.violations:
         ctx.violation("correspondence broken: the model's execute disagrees with the real prune_repository on what is written/removed (%d of %d plans); the theorem statements still hold on the real output" % (len(xmism), xrun),
                       {"correspondence": "props/C02 Model.execute vs Repository::prune on a synthetic repository", "first": xmism[0]}, no_input=True)
